@@ -34,5 +34,9 @@ pub fn on_fresh_thread<T: Send + 'static>(thread_seed: u64, f: impl FnOnce() -> 
         })
         .unwrap()
         .join()
-        .expect("run thread panicked outside guarded code")
+        .unwrap_or_else(|_| {
+            // a panic outside guarded code is a harness error: never a verdict, never silence
+            eprintln!("harness error: run thread (seed {thread_seed}) panicked outside guarded code");
+            std::process::exit(2)
+        })
 }
